@@ -83,10 +83,21 @@ static void* edn_arena_alloc_slow(edn_arena_t* arena, size_t size) {
     return ptr;
 }
 
+#ifdef EDN_C_VERIF
+/* Verification hook (off by default): lets a test harness make an arena request fail */
+extern int edn_verif_fail_alloc(void);
+#endif
+
 void* edn_arena_alloc(edn_arena_t* arena, size_t size) {
     if (!arena) {
         return NULL;
     }
+
+#ifdef EDN_C_VERIF
+    if (edn_verif_fail_alloc()) {
+        return NULL;
+    }
+#endif
 
     /* Rounding up must not wrap around (a request near SIZE_MAX cannot be met) */
     if (size > SIZE_MAX - 7) {
